@@ -279,10 +279,13 @@ static const uint8_t* bi_fetch(YR_MEMORY_BLOCK* b) {
   return c->it->data + c->it->blocks[c->idx].first;
 }
 static YR_MEMORY_BLOCK* bi_deliver(BlockIter* b, int target, int64_t idx) {
-  if (b->not_ready_at.count(idx)) { b->pending = target; b->not_ready_fired++; b->it.last_error = ERROR_BLOCK_NOT_READY; return NULL; }
+  bool nr = b->not_ready_at.count(idx) > 0;
+  if (b->passes == 0) { auto it = b->nr_target.find(target); if (it != b->nr_target.end() && it->second > 0) { it->second--; nr = true; } }
+  else { int64_t o = b->reiter_calls++; if (b->reiter_nr.count(o)) nr = true; }
+  if (nr) { b->pending = target; b->not_ready_fired++; b->it.last_error = ERROR_BLOCK_NOT_READY; return NULL; }
   b->pending = -1;
   b->it.last_error = ERROR_SUCCESS;
-  if (target >= (int) b->mb.size()) { b->pos = target; return NULL; }
+  if (target >= (int) b->mb.size()) { b->pos = target; b->passes++; return NULL; }
   b->pos = target;
   return &b->mb[target];
 }
@@ -302,6 +305,6 @@ void BlockIter::init(const void* d, size_t n, const std::vector<std::pair<size_t
   data = (const uint8_t*) d; size = n; blocks = parts;
   mb.resize(parts.size()); ctx.resize(parts.size());
   for (size_t i = 0; i < parts.size(); i++) { ctx[i] = {this, (int) i}; mb[i].size = parts[i].second; mb[i].base = parts[i].first; mb[i].context = &ctx[i]; mb[i].fetch_data = bi_fetch; }
-  pos = -1; pending = -1; calls = 0;
+  pos = -1; pending = -1; calls = 0; passes = 0; reiter_calls = 0;
   it.context = this; it.first = bi_first; it.next = bi_next; it.file_size = report_size ? bi_size : NULL; it.last_error = ERROR_SUCCESS;
 }
